@@ -900,7 +900,7 @@ pub fn control_abortable(
                     // recorded sequence exhausted: continue with the lowest participant
                     pool[0]
                 } else {
-                    let want = seq[replay_pos] as usize;
+                    let want = (seq[replay_pos] & 0x7f) as usize;
                     replay_pos += 1;
                     if cands.contains(&want) {
                         want
@@ -928,6 +928,19 @@ pub fn control_abortable(
             st.parts[second].granted = true;
             steps += 1;
             nontrivial += 1;
+        }
+        if let Strategy::Replay(seq) = strategy {
+            // a recorded burst step: the next entry carries the 0x80 flag
+            if replay_pos < seq.len() && seq[replay_pos] & 0x80 != 0 {
+                let second = (seq[replay_pos] & 0x7f) as usize;
+                replay_pos += 1;
+                if second < st.parts.len() && st.parts[second].parked.is_some() {
+                    let (pt2, _) = st.parts[second].parked.unwrap();
+                    st.trace.push((second as u8 | 0x80, pt2.code()));
+                    st.parts[second].granted = true;
+                    steps += 1;
+                }
+            }
         }
         s.cv.notify_all();
         // wait until the granted participant has left its point
